@@ -128,7 +128,8 @@ class CSSRule(css_parser.util.Base2):
     def _getParentStyleSheet(self):
         # rules contained in other rules (@media) use that rules parent
         if (self.parentRule):
-            return self.parentRule._parentStyleSheet
+            # (at any depth: the parent rule may be nested itself)
+            return self.parentRule.parentStyleSheet
         else:
             return self._parentStyleSheet
 
